@@ -62,6 +62,20 @@ func (e ExitReason) GetHostCallID() uint8 {
 	return uint8(e)
 }
 
+// hostCallExit builds the host-call exit for an ecalli immediate. The immediate
+// is at most 4 octets, sign-extended to 64 bits (GP A.5.2), so its low 32 bits
+// determine it; only those are stored, which keeps the exit type in the top
+// byte intact for every immediate.
+func hostCallExit(nuX uint64) ExitReason {
+	return ExitHostCall | ExitReason(uint32(nuX))
+}
+
+// GetHostCallIndex returns the full host-call identifier: the ecalli immediate
+// sign-extended to 64 bits.
+func (e ExitReason) GetHostCallIndex() uint64 {
+	return uint64(int64(int32(uint32(e))))
+}
+
 func (e ExitReason) GetPageFaultAddress() uint32 {
 	return uint32(e)
 }
